@@ -15,6 +15,7 @@ import (
 
 	"github.com/containerd/nri/pkg/api"
 	"github.com/containerd/nri/pkg/net/multiplex"
+	"github.com/containerd/nri/pkg/stub"
 	"github.com/containerd/ttrpc"
 	"google.golang.org/grpc/status"
 )
@@ -24,7 +25,8 @@ type PlugIn struct {
 	Name string `json:"name"`
 	Idx  string `json:"idx"`
 	// when RegisterPlugin is sent: now | short (a quarter of the registration timeout) |
-	// late (2.5 × the timeout) | never
+	// late (2.5 × the timeout) | never | stub (not scripted by hand: a real stub.Stub around a
+	// plugin implementing every handler, whose Configure returns Events)
 	Reg string `json:"reg"`
 	// early: the plugin hangs up right after connecting, without registering
 	Close string `json:"close"`
@@ -60,6 +62,7 @@ type plugEnd struct {
 	mux    multiplex.Mux
 	rpcs   *ttrpc.Server
 	rpcc   *ttrpc.Client
+	st     stub.Stub
 	closed chan struct{} // connection went down
 	synced chan struct{} // Synchronize answered successfully
 	quit   chan struct{} // harness teardown
@@ -225,6 +228,10 @@ func (p *plugEnd) run() {
 		p.markClosed()
 		return
 	}
+	if p.in.Reg == "stub" {
+		p.runStub()
+		return
+	}
 	p.mux = multiplex.Multiplex(p.conn)
 	l, err := p.mux.Listen(multiplex.PluginServiceConn)
 	if err != nil {
@@ -305,7 +312,112 @@ func (p *plugEnd) snapshot() PlugObs {
 	return o
 }
 
+// fullPlugin implements every handler interface of pkg/stub and reports into the plugin end.
+type fullPlugin struct{ p *plugEnd }
+
+func (f fullPlugin) Configure(_ context.Context, _, _, _ string) (api.EventMask, error) {
+	f.p.mu.Lock()
+	f.p.obs.Configures++
+	f.p.mu.Unlock()
+	return api.EventMask(int32(f.p.in.Events)), nil
+}
+func (f fullPlugin) Synchronize(_ context.Context, _ []*api.PodSandbox, _ []*api.Container) ([]*api.ContainerUpdate, error) {
+	f.p.mu.Lock()
+	f.p.obs.Syncs++
+	f.p.mu.Unlock()
+	f.p.sonce.Do(func() { close(f.p.synced); f.p.release() })
+	return nil, nil
+}
+func (f fullPlugin) ev(e api.Event) error { f.p.event(int32(e)); return nil }
+func (f fullPlugin) RunPodSandbox(context.Context, *api.PodSandbox) error {
+	return f.ev(api.Event_RUN_POD_SANDBOX)
+}
+func (f fullPlugin) UpdatePodSandbox(context.Context, *api.PodSandbox, *api.LinuxResources, *api.LinuxResources) error {
+	return f.ev(api.Event_UPDATE_POD_SANDBOX)
+}
+func (f fullPlugin) PostUpdatePodSandbox(context.Context, *api.PodSandbox) error {
+	return f.ev(api.Event_POST_UPDATE_POD_SANDBOX)
+}
+func (f fullPlugin) StopPodSandbox(context.Context, *api.PodSandbox) error {
+	return f.ev(api.Event_STOP_POD_SANDBOX)
+}
+func (f fullPlugin) RemovePodSandbox(context.Context, *api.PodSandbox) error {
+	return f.ev(api.Event_REMOVE_POD_SANDBOX)
+}
+func (f fullPlugin) CreateContainer(context.Context, *api.PodSandbox, *api.Container) (*api.ContainerAdjustment, []*api.ContainerUpdate, error) {
+	return nil, nil, f.ev(api.Event_CREATE_CONTAINER)
+}
+func (f fullPlugin) PostCreateContainer(context.Context, *api.PodSandbox, *api.Container) error {
+	return f.ev(api.Event_POST_CREATE_CONTAINER)
+}
+func (f fullPlugin) StartContainer(context.Context, *api.PodSandbox, *api.Container) error {
+	return f.ev(api.Event_START_CONTAINER)
+}
+func (f fullPlugin) PostStartContainer(context.Context, *api.PodSandbox, *api.Container) error {
+	return f.ev(api.Event_POST_START_CONTAINER)
+}
+func (f fullPlugin) UpdateContainer(context.Context, *api.PodSandbox, *api.Container, *api.LinuxResources) ([]*api.ContainerUpdate, error) {
+	return nil, f.ev(api.Event_UPDATE_CONTAINER)
+}
+func (f fullPlugin) PostUpdateContainer(context.Context, *api.PodSandbox, *api.Container) error {
+	return f.ev(api.Event_POST_UPDATE_CONTAINER)
+}
+func (f fullPlugin) StopContainer(context.Context, *api.PodSandbox, *api.Container) ([]*api.ContainerUpdate, error) {
+	return nil, f.ev(api.Event_STOP_CONTAINER)
+}
+func (f fullPlugin) RemoveContainer(context.Context, *api.PodSandbox, *api.Container) error {
+	return f.ev(api.Event_REMOVE_CONTAINER)
+}
+
+// runStub lets the repository's own stub do the talking.
+func (p *plugEnd) runStub() {
+	st, err := stub.New(fullPlugin{p}, stub.WithPluginName(p.in.Name), stub.WithPluginIdx(p.in.Idx),
+		stub.WithConnection(p.conn), stub.WithOnClose(p.markClosed))
+	if err != nil {
+		p.mu.Lock()
+		p.obs.Reg, p.obs.RegMsg = "failed", err.Error()
+		p.mu.Unlock()
+		p.markClosed()
+		return
+	}
+	p.st = st
+	startC := make(chan error, 1)
+	go func() { startC <- st.Start(context.Background()) }()
+	var serr error
+	select {
+	case serr = <-startC:
+	case <-p.quit:
+		return
+	case <-time.After(60 * time.Second):
+		serr = errors.New("stub.Start blocked")
+	}
+	p.mu.Lock()
+	if serr == nil || p.obs.Configures > 0 {
+		p.obs.Reg = "ok" // Configure is only ever sent to a registered plugin
+	} else {
+		p.obs.Reg, p.obs.RegMsg = "failed", serr.Error()
+	}
+	p.mu.Unlock()
+	if serr != nil {
+		p.release()
+		return
+	}
+	select {
+	case <-p.synced:
+	case <-p.closed:
+	case <-p.quit:
+	}
+}
+
 func (p *plugEnd) shutdown() {
+	if p.st != nil {
+		done := make(chan struct{})
+		go func() { p.st.Stop(); close(done) }()
+		select {
+		case <-done:
+		case <-time.After(5 * time.Second):
+		}
+	}
 	if p.rpcc != nil {
 		p.rpcc.Close()
 	}
